@@ -7,6 +7,7 @@ import (
 	"sort"
 	"strings"
 
+	"github.com/apparentlymart/go-textseg/v15/textseg"
 	"github.com/zclconf/go-cty/cty"
 )
 
@@ -395,6 +396,19 @@ func numCmp(a, b cty.Value) int { return bf(a).Cmp(bf(b)) }
 
 func isInf(v cty.Value) bool { return bf(v).IsInf() }
 
+// numCmpDoc compares two known numbers the way the library documents number
+// equality: numbers whose shortest decimal texts agree (0.1 as a float64 and
+// "0.1" parsed at 512 bits) are the same number; otherwise exact comparison.
+// Used only where the oracle decides membership in a range, so that a bound
+// and a member that the library itself treats as equal are not told apart.
+func numCmpDoc(a, b cty.Value) int {
+	c := numCmp(a, b)
+	if c != 0 && docEqNum(bf(a), bf(b)) {
+		return 0
+	}
+	return c
+}
+
 // ---------------------------------------------------------------------------
 // weakenings: unknowns whose refinements are true of x
 
@@ -495,7 +509,10 @@ func weakeningsOf(x cty.Value, full bool) []cty.Value {
 	case ty == cty.String:
 		s := x.AsString()
 		seen := map[string]bool{"": true}
-		for i := 1; i <= len(s); i++ {
+		// only prefixes ending on a grapheme-cluster boundary of x: the full
+		// prefix form is a caller's promise that the string continues with a
+		// new cluster
+		for _, i := range clusterEnds(s) {
 			p := s[:i]
 			if cty.NormalizeString(p) != p || seen[p] {
 				continue
@@ -806,13 +823,13 @@ func admits1(A, c cty.Value, path string) (bool, string) {
 			hi, hiInc := r.NumberUpperBound()
 			// -Inf as lower / +Inf as upper bound is the accessor's way of saying "unbounded"
 			if lo.IsKnown() && !lo.IsNull() && !(isInf(lo) && bf(lo).Sign() < 0) {
-				cmp := numCmp(c, lo)
+				cmp := numCmpDoc(c, lo)
 				if cmp < 0 || (cmp == 0 && !loInc) {
 					return false, fmt.Sprintf("%s: lower bound %#v (inclusive=%v) excludes %#v", path, lo, loInc, c)
 				}
 			}
 			if hi.IsKnown() && !hi.IsNull() && !(isInf(hi) && bf(hi).Sign() > 0) {
-				cmp := numCmp(c, hi)
+				cmp := numCmpDoc(c, hi)
 				if cmp > 0 || (cmp == 0 && !hiInc) {
 					return false, fmt.Sprintf("%s: upper bound %#v (inclusive=%v) excludes %#v", path, hi, hiInc, c)
 				}
@@ -1171,4 +1188,22 @@ func strClass(s string) string {
 		}
 	}
 	return "ascii"
+}
+
+// clusterEnds returns the byte offsets at which a grapheme cluster of s ends
+// (textseg is the trusted definition of a cluster).
+func clusterEnds(s string) []int {
+	var out []int
+	b := []byte(s)
+	off := 0
+	for len(b) > 0 {
+		adv, _, err := textseg.ScanGraphemeClusters(b, true)
+		if err != nil || adv == 0 {
+			break
+		}
+		off += adv
+		out = append(out, off)
+		b = b[adv:]
+	}
+	return out
 }
